@@ -188,7 +188,8 @@ def judge(plan, segments, queries, fresh):
     tracked[int(idx)] = ann
     consistent[int(idx)] = _ann_consistent(ann)
   seen_v = {}       # (check cfg, artifact idx) -> (step, entries, infos)
-  seen_joint = {}   # (check cfg, batch tuple) -> (step, V)
+  seen_joint = {}   # (check cfg, batch tuple) -> (step, V, process epoch)
+  epoch = [0]       # process lifetime counter (restarts lose the cached tables)
   last_ops = []
 
   for ev in events:
@@ -209,6 +210,8 @@ def judge(plan, segments, queries, fresh):
     if name == "seam_fault":
       st["faults_armed"] += 1
       continue
+    if name == "restart":
+      epoch[0] += 1
     if name in ("persist_reload", "restart", "heal", "curve_op"):
       continue
     if name == "bad_call":
@@ -334,7 +337,7 @@ def judge(plan, segments, queries, fresh):
 
     # ---- C17 inside the subject: same artifact, same check, other context --
     _judge_c17_history(plan, op, ev, arts, batch, is_all, cname, cfg, seen_v,
-                       seen_joint, viol, st, probe)
+                       seen_joint, viol, st, probe, epoch[0])
 
   # artifacts untouched at the very end
   final = segments[-1]["pool_snap"]
@@ -563,7 +566,7 @@ def _judge_c10(ctx, plan, op, ev, arts, batch, is_all, cname, viol, st,
   V = ev["V"]
   runs_priv = is_all or cname == "CheckWeakECPrivateKey"
   runs_diff = is_all or cname == "CheckECKeySmallDifference"
-  max_diff = plan["knobs"].get("max_diff")
+  max_diff = plan["knobs"].get("max_diff") or 2**24   # None = shipped default
   if not is_all and cname == "CheckECKeySmallDifference":
     max_diff = (op["check"].get("params") or {}).get("max_diff", max_diff)
   for pos, a in enumerate(arts):
@@ -628,7 +631,7 @@ def _known_c17(a, name):
 
 
 def _judge_c17_history(plan, op, ev, arts, batch, is_all, cname, cfg, seen_v,
-                       seen_joint, viol, st, probe):
+                       seen_joint, viol, st, probe, epoch=0):
   i = ev["i"]
   V = ev["V"]
   kind = plan["kind"]
@@ -660,7 +663,7 @@ def _judge_c17_history(plan, op, ev, arts, batch, is_all, cname, cfg, seen_v,
   jkey = (cfg, tuple(batch))
   cur = [(_entries_by_name(v)) for v in V]
   if jkey in seen_joint:
-    p_step, p = seen_joint[jkey]
+    p_step, p, p_epoch = seen_joint[jkey]
     st["v_compares"] += 1
     for pos in range(len(batch)):
       for name in cur[pos]:
@@ -670,8 +673,9 @@ def _judge_c17_history(plan, op, ev, arts, batch, is_all, cname, cfg, seen_v,
         if a_then == a_now:
           continue
         if name in TABLE_MONOTONE:
-          # flagged earlier => still flagged (table only grows); more is fine
-          if a_then[0][0] and not a_now[0][0]:
+          # flagged earlier => still flagged (the table only grows within one
+          # process lifetime; a restart loses it, so no claim across restarts)
+          if p_epoch == epoch and a_then[0][0] and not a_now[0][0]:
             viol.append(_viol("C17", "joint_verdict_lost", i, name,
                               "%s flagged pool[%d] at step %d but not at step "
                               "%d on the same batch" %
@@ -681,8 +685,10 @@ def _judge_c17_history(plan, op, ev, arts, batch, is_all, cname, cfg, seen_v,
                             "%s on the same batch gives %s at step %d and %s "
                             "at step %d for pool[%d]" %
                             (name, a_then, p_step, a_now, i, batch[pos])))
+    if p_epoch != epoch:
+      seen_joint[jkey] = (i, cur, epoch)
   else:
-    seen_joint[jkey] = (i, cur)
+    seen_joint[jkey] = (i, cur, epoch)
 
 
 def _art_ident(a):
